@@ -60,8 +60,8 @@ use datafusion_common::{internal_err, tree_node::Transformed};
 use datafusion_expr::{BinaryExpr, lit};
 use datafusion_expr::{Cast, Expr, Operator, TryCast, simplify::SimplifyContext};
 use datafusion_expr_common::casts::{
-    is_date_narrowing_cast, is_supported_type, is_timestamp_precision_narrowing_cast,
-    try_cast_literal_to_type,
+    is_date_narrowing_cast, is_integer_narrowing_cast, is_supported_type,
+    is_timestamp_precision_narrowing_cast, try_cast_literal_to_type,
 };
 
 pub(super) fn unwrap_cast_in_comparison_for_binary(
@@ -139,6 +139,14 @@ pub(super) fn is_cast_expr_and_support_unwrap_cast_in_comparison_for_binary(
                 return false;
             }
 
+            // A narrowing TRY_CAST is NULL for values that do not fit the target
+            // type, the unwrapped comparison would be true / false instead
+            if matches!(expr, Expr::TryCast(_))
+                && is_integer_narrowing_cast(&expr_type, field.data_type())
+            {
+                return false;
+            }
+
             if cast_literal_to_type_with_op(lit_val, &expr_type, op).is_some() {
                 return true;
             }
@@ -178,6 +186,14 @@ pub(super) fn is_cast_expr_and_support_unwrap_cast_in_comparison_for_inlist(
 
     if is_timestamp_precision_narrowing_cast(&expr_type, field.data_type())
         || is_date_narrowing_cast(&expr_type, field.data_type())
+    {
+        return false;
+    }
+
+    // A narrowing TRY_CAST is NULL for values that do not fit the target type,
+    // the unwrapped IN list would be false instead
+    if matches!(expr, Expr::TryCast(_))
+        && is_integer_narrowing_cast(&expr_type, field.data_type())
     {
         return false;
     }
